@@ -174,6 +174,62 @@ def _fmt(t):
     return str(t)
 
 
+# allocation functions that (documentedly) do not keep the value they are given
+VALUE_NOT_KEPT = {
+    "zst_cache::ZstCache::alloc": "returns the cache's shared pointer for a cacheable ZST; the passed (zero-sized) value is given up "
+                                  "right there - reviewed, documented on the type",
+    "zst_cache::ZstCache::alloc_static": "same as ZstCache::alloc",
+}
+
+
+def value_moved_into_block(chk, prog, rule="value-moved-into-block"):
+    """A function that is handed a value by the caller and returns a pointer / builder for an allocation of that
+    value's type must *move* the value into the block on every normal path: a path on which the parameter is still
+    owned by the function at its end destructs the value right there (inside the mutation callback) while the block
+    registered with the arena is flagged live - the value is destructed again by the sweep or the arena drop."""
+    n = 0
+    for f in prog.f["fns"]:
+        ins = f.get("inputs") or []
+        out = f.get("output") or {}
+        out_s = out.get("s", "")
+        if not ("gc::Gc<" in out_s or "Builder<" in out_s) or f["n"] in VALUE_NOT_KEPT:
+            continue
+        for i, a in enumerate(ins):
+            t = prog.ty(a["ty"])
+            if t.get("k") != "param":
+                continue
+            import re as _re
+            if not _re.search(r"(^|[^A-Za-z0-9_])%s($|[^A-Za-z0-9_])" % _re.escape(t["s"]), out_s):
+                continue            # e.g. an element-constructor closure: not the allocated value
+            for key in prog.seed_n.get(f["n"], []):
+                b = prog.bodies[key]
+                if b["def"] != f["path"]:
+                    continue
+                n += 1
+                owned = {i + 1}
+                changed = True
+                while changed:
+                    changed = False
+                    for bb in b["blocks"]:
+                        for st in bb["s"]:
+                            if st["k"] == "assign" and not st["p"]["p"] and st["r"]["k"] == "use" and \
+                                    st["r"]["o"].get("k") == "move" and not st["r"]["o"]["p"]["p"] and \
+                                    st["r"]["o"]["p"]["l"] in owned and st["p"]["l"] not in owned:
+                                owned.add(st["p"]["l"])
+                                changed = True
+                bad = []
+                for x in cfg.reach_from(b, [0], unwind=False):
+                    tt = b["blocks"][x]["t"]
+                    if tt and tt["k"] == "drop" and not b["blocks"][x].get("c") and tt["p"]["l"] in owned:
+                        bad.append(tt["l"])
+                chk.inst(rule, "%s(%s)" % (f["n"], a.get("name") or i), not bad,
+                         detail="`%s` can reach its end still owning the value it was given for allocation (drop at line %s): "
+                                "the value is destructed inside the callback while its block is registered as live, and again "
+                                "by the collector" % (f["n"], bad),
+                         sample={"function": f["n"], "parameter": i, "type": t["s"]})
+    chk.floor("value-taking-allocation-functions", n, 3)
+
+
 def _defs_of(body, local):
     out = []
     for bb in body["blocks"]:
